@@ -104,4 +104,12 @@ theorem nonascii_vs_ascii_rejected (a b : Bytes) (i : Nat) (ha : i < a.length) (
 example : eqIgnoreAsciiCase [75, 105, 195, 159] [107, 73, 195, 159] = true := by decide
 example : FoldEq [75, 105] [107, 73] := by simp [FoldEq, isLetter, isUpper, isLower]
 
+/-- **at source level**: a written variant is matched case-insensitively iff its OWN `ascii_case_insensitive` item says so,
+    or - when it has none - iff the enum header carries the flag; no other variant's items enter -/
+theorem source_ci (s : RawSource) (r : RawVariant) :
+    s.declared.ciOf r.declared =
+      (match lastOf VItem.ci? r.attrs.flatten with
+       | some b => b
+       | none => s.hdr.attrs.flatten.any (· == .ci)) := rfl
+
 end Strum
